@@ -3,10 +3,15 @@
  *   place 'a' : malloc(n) exactly            (ASan+UBSan build: red zones on both sides)
  *   place 'h' : block ends flush against a PROT_NONE page   (build without sanitizer)
  *   place 'l' : block starts directly after a PROT_NONE page (build without sanitizer)
- * Protocol: one case per stdin line  "<op> <place> <args...>"  ->  exactly one answer line
- *   "<op> rc=<rc> n=<reported size|-1> k=v ..."
- * A SIGSEGV/SIGBUS prints "FAULT sig=.. acc=R|W buf=<which>+<off>" ; a SIGALRM (watchdog) prints
- * "FAULT sig=14" = non-termination.  The rig restarts the driver after the faulting case. */
+ * Protocol: all cases are read from stdin, one per line  "<op> <place> <args...> [R]" ; every case is
+ * answered with exactly one line, in order:
+ *   "<op> rc=<rc> n=<reported size|-1> k=v ..."           the calls of the case returned
+ *   "<op> CRASH status=<wait status> raw=<last words>"    the worker died in this case: sanitizer report,
+ *        "FAULT sig=11 acc=R|W buf=<block> off=<offset> size=<n>" (guard page) or "FAULT sig=26" (CPU-time
+ *        watchdog = non-termination), preceded by the "@buf <name> <addr> <size>" / "@reinvoke <n>" notes
+ * The cases run in a forked worker; when it dies the parent forks a new one for the remaining cases.
+ * A trailing R asks a sized call that was refused WITH a reported size to be repeated with exactly that size.
+ * "--nofork" runs the cases in the parent (for replaying a single case under a debugger / with symbols). */
 #include <sys/param.h>
 #include <sys/types.h>
 #include <sys/time.h>
@@ -118,7 +123,7 @@ static void watchdog_ms(long ms) {
 	struct itimerval it; memset(&it, 0, sizeof(it));
 	it.it_value.tv_sec = ms / 1000; it.it_value.tv_usec = (ms % 1000) * 1000;
 	setitimer(ITIMER_VIRTUAL, &it, NULL);
-	memset(&it, 0, sizeof(it)); it.it_value.tv_sec = ms ? 20 + ms / 1000 : 0;
+	memset(&it, 0, sizeof(it)); it.it_value.tv_sec = ms ? 120 + ms / 1000 : 0;
 	setitimer(ITIMER_REAL, &it, NULL);
 }
 
